@@ -1,5 +1,5 @@
 (** C04 — failed TLV mutations leave the buffer untouched. *)
-From SplVerif Require Import Lib.Base Tlv.Model Tlv.Spec Tlv.Walk Tlv.Parse Tlv.Ops Tlv.Refine Tlv.Corollaries.
+From SplVerif Require Import Lib.Base Tlv.Model Tlv.Spec Tlv.Walk Tlv.Parse Tlv.Ops Tlv.Refine Tlv.Corollaries Tlv.AnyTail.
 Local Open Scope N_scope.
 
 (** allocate / initialise / allocate-and-pack / resize / (typed) write: an error means
@@ -26,6 +26,14 @@ Proof. exact failed_pack_confined. Qed.
 Theorem C04_spec_error_is_identity : forall n es o e, is_pack_var o = false ->
   snd (s_step n es o) = Err e -> fst (s_step n es o) = es.
 Proof. exact s_step_err_unchanged. Qed.
+
+(** beyond canonical slabs: on any valid slab (entries followed by an arbitrary terminator-led tail,
+    e.g. a recycled buffer) a failed resize returns the same bytes, and they still open *)
+Theorem C04_resize_error_identity_any_valid_slab : forall es (tail : list byte) t r a v b l e,
+  Forall wf_entry es -> term tail -> wf_tag t -> split_entry es t r = Some (a, v, b) ->
+  snd (realloc (enc es ++ tail) t l r) = Err e ->
+  fst (realloc (enc es ++ tail) t l r) = enc es ++ tail /\ check_data (enc es ++ tail) = Ok tt.
+Proof. exact realloc_error_identity_any_tail. Qed.
 
 (** non-vacuity: the input on which the pinned tree violated this (D1) is an error case *)
 Example C04_nonvacuous :
